@@ -485,6 +485,8 @@ def concatenate(samplesets, defaults=None):
     # a performance bottleneck in the future, it might be worth changing.
     record = recfunctions.stack_arrays(records, defaults=defaults,
                                        asrecarray=True, usemask=False)
+    if len(records) == 1:
+        record = record.copy()  # stack_arrays returns its only input as is
 
     return SampleSet(record, variables, {}, vartype)
 
